@@ -223,6 +223,39 @@ pub fn measure_pulse(spectrum: &[f64], stage: usize, use_log_gain: bool, rate: u
     }
 }
 
+/// Unit-pulse response of the LAST of `n_stationary` (>= 2) frames of `spectrum` that follow the
+/// frames `prior` (other spectra) on one vocoder, everything voiced at 20 Hz with the long frame of
+/// `measure_pulse`. The pulse positions are obtained by simulating the documented pitch counter.
+/// Returns the normalised response from the last frame's pulse to the end of that frame.
+#[allow(clippy::too_many_arguments)]
+pub fn measure_pulse_after_frames(prior: &[Vec<f64>], spectrum: &[f64], n_stationary: usize, stage: usize, use_log_gain: bool, rate: usize, alpha: f64, beta: f64) -> Vec<f64> {
+    let p = period20(rate);
+    let fperiod = p.floor() as usize - 2;
+    let mut v = Vocoder::new(spectrum.len(), 0, stage, use_log_gain, rate, alpha, beta, 1.0, fperiod);
+    let lf0 = 20f64.ln();
+    let nframes = prior.len() + n_stationary;
+    let mut last = vec![0.0; fperiod];
+    for f in 0..nframes {
+        let sp: &[f64] = if f < prior.len() { &prior[f] } else { spectrum };
+        v.synthesize(lf0, sp, &[], &mut last);
+    }
+    // pitch counter: starts at p, +1 per sample, fires (and -= p) when >= p
+    let mut counter = p;
+    let mut pulse_in_last = None;
+    for n in 0..nframes * fperiod {
+        counter += 1.0;
+        if counter >= p {
+            counter -= p;
+            if n >= (nframes - 1) * fperiod && pulse_in_last.is_none() {
+                pulse_in_last = Some(n - (nframes - 1) * fperiod);
+            }
+        }
+    }
+    let j = pulse_in_last.unwrap_or(0);
+    let amp = p.sqrt();
+    last[j..].iter().map(|x| x / amp).collect()
+}
+
 /// Unit-pulse response measured on the FIRST pulse after `n_unvoiced` unvoiced frames of the same
 /// stationary spectrum. The same sequence is rendered twice, with the voiced frame at 20 Hz and at
 /// 40 Hz: the noise tails of the unvoiced frames are identical in both runs (same noise source,
